@@ -365,6 +365,8 @@ def py_lints(ctx, py, mods, only=None):
     py_minmax_kind(ctx, py, mods, only=only)
     span_kind(ctx, None, py, None, py_mods=mods, py_only=only, tus=[])
     lib_py.py_width(ctx, py, mods, only=only)
+    py_stale_rows(ctx, py, mods, only=only)
+    py_find_index(ctx, py, mods, only=only)
 
 
 TS_WRITERS_OK = {
@@ -663,4 +665,155 @@ def discrete_flags(ctx, P, rule="DISCRETE-FLAGS", floor=6):
                 continue
             ctx.ob(rule, key, True, tu.loc(x), "%s &&= %s, which accumulates is_discrete() of %s values; folded last" % (flag, acc, want))
     ctx.floor(rule, floor)
+    return n
+
+
+REORDERING = {"sort", "simplify", "canonicalise", "subset", "sort_individuals", "deduplicate_sites"}
+
+
+def py_stale_rows(ctx, py, mods, only=None, rule="PY-STALE-ROWS"):
+    ctx.rule(rule, "a per-row mask or index array computed from a table's columns (comparisons, np.logical_*, np.where, np.repeat "
+                   "over num_rows …) is consumed before the collection is re-ordered: no such local is read after a call to "
+                   "self.sort() / simplify() / canonicalise() / subset() that follows its definition (the rows it describes have "
+                   "been renumbered)")
+    n = 0
+    for mn in mods:
+        m = py.mod(mn)
+        for qn, fn in m.funcs.items():
+            if only is not None and not only(mn, qn):
+                continue
+            reorder = [c for c in ast.walk(fn) if isinstance(c, ast.Call) and isinstance(c.func, ast.Attribute) and c.func.attr in REORDERING
+                       and ast.unparse(c.func.value) in ("self", "tables", "self.tables")]
+            if not reorder:
+                continue
+            rowish = {}
+            for a in ast.walk(fn):
+                if isinstance(a, ast.Assign):
+                    v = a.value
+                    txt = ast.unparse(v)
+                    is_rows = any(isinstance(x, ast.Compare) for x in ast.walk(v)) and re.search(r"\.(position|left|right|time|node|site|parent|child)\b", txt) \
+                        or re.search(r"np\.(logical_\w+|where|repeat|zeros|ones|flatnonzero|nonzero)\(", txt) and re.search(r"num_rows|keep|mask", txt)
+                    if is_rows:
+                        for t in a.targets:
+                            if isinstance(t, ast.Name):
+                                rowish.setdefault(t.id, []).append(a)
+            if not rowish:
+                continue
+            for c in reorder:
+                cend = getattr(c, "end_lineno", c.lineno)
+                bad = None
+                for u in ast.walk(fn):
+                    if isinstance(u, ast.Name) and isinstance(u.ctx, ast.Load) and u.id in rowish and u.lineno > cend:
+                        before = [a for a in rowish[u.id] if a.lineno < c.lineno]
+                        between = [a for a in rowish[u.id] if cend < a.lineno <= u.lineno]
+                        if before and not between:
+                            bad = (u, before[-1])
+                            break
+                n += 1
+                ctx.ob(rule, "%s.%s|%s@%d" % (mn, qn, c.func.attr, reorder.index(c)), bad is None, m.loc(bad[0]) if bad else m.loc(c),
+                       "no row mask outlives %s()" % c.func.attr if bad is None else
+                       "`%s` (computed at line %d from the old row order) is used after %s() renumbered the rows"
+                       % (bad[0].id, bad[1].lineno, c.func.attr))
+    return n
+
+
+_MUTATOR = re.compile(r"^tsk_(\w+_table_(clear|truncate|add_row|append_columns|set_columns|extend|keep_rows|update_row|takeset_\w+|squash)"
+                      r"|table_collection_(clear|drop_index))$")
+
+
+def validate_before_mutate(ctx, P, scope, rule="VALIDATE-BEFORE-MUTATE", tus=("tables", "trees")):
+    from sa.cfg import CFG
+    from sa.expr import walk, callee, calls, estr
+    ctx.rule(rule, "an operation that validates its own table collection with tsk_table_collection_check_integrity does so before it "
+                   "changes any of that collection's tables: no call that clears, truncates, rewrites or appends to `self->…` is "
+                   "reachable from the function entry without passing the integrity check, so a rejected collection is left "
+                   "exactly as it was (and the check sees the caller's tables, not a half-emptied copy)")
+    n = 0
+    for key in tus:
+        tu = P.tus[key]
+        for fn in tu.funcs.values():
+            if fn.body is None or not scope(key, fn.name):
+                continue
+            own = fn.params[0].name if fn.params else None
+            checks = [c for c in calls(fn.body) if callee(c) == "tsk_table_collection_check_integrity" and len(c.kids) > 1 and estr(c.kids[1]) == own]
+            if not checks or own is None:
+                continue
+            muts = [c for c in calls(fn.body) if _MUTATOR.match(callee(c) or "") and len(c.kids) > 1
+                    and re.match(r"^&?%s(->|$)" % re.escape(own), estr(c.kids[1]))]
+            cfg = CFG(fn)
+
+            def node_of(c):
+                for nd in cfg.nodes:
+                    if nd.ast is not None and nd.kind in ("stmt", "cond") and any(x is c for x in walk(nd.ast)):
+                        return nd
+                return None
+            cn = {node_of(c) for c in checks} - {None}
+            early = None
+            for mcall in muts:
+                mn_ = node_of(mcall)
+                if mn_ is not None and cfg.path_exists(cfg.entry, mn_, avoid=cn):
+                    early = mcall
+                    break
+            n += 1
+            ctx.ob(rule, fn.name, early is None, tu.loc(early) if early is not None else tu.loc(checks[0]),
+                   "%d mutating call(s) on %s, all behind the integrity check" % (len(muts), own) if early is None else
+                   "`%s(%s, …)` can run before tsk_table_collection_check_integrity(%s, …): a rejected collection is already modified"
+                   % (callee(early), estr(early.kids[1]), own))
+    return n
+
+
+def length_guard(ctx, P, scope, rule="LENGTH-GUARD", tus=None):
+    from sa.expr import strip, walk, estr
+    ctx.rule(rule, "a block guarded by `<obj>-><field>_length > 0` (or != 0) handles <obj>-><field>: when the condition tests exactly "
+                   "one length member and the guarded block touches members of the same object, the like-named data member is among "
+                   "them (a guard copied from the sibling field writes or skips the wrong column)")
+    n = 0
+    for key in (tus or LIB_TUS):
+        tu = P.tus[key]
+        for fn in tu.funcs.values():
+            if fn.body is None or not scope(key, fn.name):
+                continue
+            k = 0
+            for x in walk(fn.body):
+                if x.k != "IfStmt" or len(x.kids) < 2 or x.kids[1] is None:
+                    continue
+                mems = [m for m in walk(x.kids[0]) if m.k == "MemberExpr" and (m.name or "").endswith("_length")]
+                c = strip(x.kids[0])
+                if len(mems) != 1 or c is None or c.k != "BinaryOperator" or c.op not in (">", "!="):
+                    continue
+                m = mems[0]
+                stem, owner = m.name[:-7], estr(m.kids[0])
+                names = {y.name for y in walk(x.kids[1]) if y.k == "MemberExpr" and estr(y.kids[0]) == owner}
+                if not names:
+                    continue
+                n += 1
+                ctx.ob(rule, "%s@%d|%s" % (fn.name, k, m.name), stem in names, tu.loc(x),
+                       "guarded block handles %s->%s" % (owner, stem) if stem in names else
+                       "guard tests %s->%s but the block handles %s" % (owner, m.name, sorted(names)))
+                k += 1
+    return n
+
+
+def py_find_index(ctx, py, mods, only=None, rule="PY-FIND-INDEX"):
+    ctx.rule(rule, "the result of str.find / rfind / bytes.find is never used directly as a slice bound or subscript: -1 (not found) "
+                   "would silently select everything but the last element")
+    n = 0
+    for mn in mods:
+        m = py.mod(mn)
+        for qn, fn in m.funcs.items():
+            if only is not None and not only(mn, qn):
+                continue
+            bad = None
+            seen = False
+            for s in ast.walk(fn):
+                if isinstance(s, ast.Call) and isinstance(s.func, ast.Attribute) and s.func.attr in ("find", "rfind"):
+                    seen = True
+                if isinstance(s, ast.Subscript):
+                    for c in ast.walk(s.slice):
+                        if isinstance(c, ast.Call) and isinstance(c.func, ast.Attribute) and c.func.attr in ("find", "rfind"):
+                            bad = s
+            if seen:
+                n += 1
+                ctx.ob(rule, "%s.%s" % (mn, qn), bad is None, m.loc(bad) if bad is not None else m.loc(fn),
+                       "find() results are tested before use" if bad is None else "`%s` uses find() as a bound without testing for -1" % ast.unparse(bad)[:80])
     return n
